@@ -296,6 +296,15 @@ def run(ctx):
             if len(m.bytes) > 400:
                 continue
             pool.append(m)
+        # the decoder object is reused throughout; it has also served lenient decodes
+        # (ignore_value_expectation=True applies to THAT call only)
+        for m in pool[:3]:
+            try:
+                dec.process(m.bytes, ignore_value_expectation=True)
+                dec.process(streams.fault_stop_signature(m.bytes, None, 1), ignore_value_expectation=True)
+                ctx.count('lenient_decodes_before_faults')
+            except Exception:
+                ctx.count('lenient_decode_raises')
         # (a) truncation + suffix
         for i, m in enumerate(pool):
             if not ctx.more():
